@@ -11,6 +11,7 @@ from .. import sym, kernels, symexec
 from ..sym import var as V, const as C, add, sub, tmin, tmax, scale
 from ..symexec import Exec, Env, subst_expr, norm_minmax, assigned_vars, reads_of
 from . import kern
+from ..model import calls_in
 from .iterspace import paths_increments
 
 INF = float('inf')
@@ -51,6 +52,46 @@ def parts_defs(m):
             except sym.Unsupported:
                 pass
     return out, raw
+
+
+def _leaves(e, path=()):
+    """(path conditions, leaf expression) for a tree of conditional expressions; a condition is (expr, polarity)."""
+    if e[0] == 'cond':
+        yield from _leaves(e[2], path + ((e[1], True),))
+        yield from _leaves(e[3], path + ((e[1], False),))
+    else:
+        yield path, e
+
+
+def rule_parts_domains(ctx, m):
+    """dtw_wps_parts hands the compact writers their thresholds (max_dist, max_step, penalty).  The writers of the squared-distance kind
+    (inner_dist == 0) accumulate squared costs, the euclidean kind plain ones: each threshold must be squared on exactly the paths with
+    inner_dist == 0 (constants -- option off -- excepted)."""
+    pdefs, praw = parts_defs(m)
+    f = m.cfunc('dtw_wps_parts')
+    for fld in ('max_dist', 'max_step', 'penalty'):
+        e = praw.get(fld)
+        if e is None:
+            raise AnalysisError('anchor vanished: dtw_wps_parts no longer sets parts.%s' % fld)
+        bad = []
+        nl = 0
+        for path, leaf in _leaves(e):
+            if leaf[0] == 'num' or (leaf[0] == 'call' and (dotted(leaf[1]) or '') in ('__builtin_inff', '__builtin_huge_valf')):
+                continue
+            nl += 1
+            cls = kern._conv_class(leaf, {fld})
+            sq_path = None
+            for c, pol in path:
+                if fmt(c).replace('(', '').replace(')', '') == 'settings.inner_dist == 0':
+                    sq_path = pol
+                if fmt(c).replace('(', '').replace(')', '') == 'settings.inner_dist == 1':
+                    sq_path = not pol
+            if sq_path is None:
+                bad.append('`%s` does not depend on inner_dist' % fmt(leaf)[:60])
+            elif (cls == 'squared') != sq_path:
+                bad.append('for inner_dist %s 0 the value is `%s` (%s)' % ('==' if sq_path else '!=', fmt(leaf)[:60], cls))
+        ctx.check(nl >= 2 and not bad, 'R-DOM', f.file, 'dtw_wps_parts', 'domain of parts.%s' % fld,
+                  'parts.%s must be pow(settings->%s, 2) exactly when inner_dist == 0 (squared costs) and the plain value otherwise: %s' % (fld, fld, '; '.join(bad) or 'too few paths'), f.line)
 
 
 class PAtoms:
@@ -1007,8 +1048,14 @@ def rule_affinity(ctx, m, tier='quick'):
         for st in F.stores:
             p, node, value = kern2d.preds(F, st, amap, kind='max')
             path = kern._conj(st[1])
-            below = any(c[0] == 'bin' and c[1] == '<' and c[3] == ('var', 'tau') for c in path)
-            above = any(c[0] == 'un' and c[1] == 'not' and c[2][0] == 'bin' and c[2][1] == '<' and c[2][3] == ('var', 'tau') for c in path)
+            below = any(c[0] == 'bin' and c[1] in ('<', '<=') and c[3] == ('var', 'tau') for c in path)
+            above = any(c[0] == 'un' and c[1] == 'not' and c[2][0] == 'bin' and c[2][1] in ('<', '<=') and c[2][3] == ('var', 'tau') for c in path)
+            strict = not any((c[0] == 'bin' and c[1] == '<=' and c[3] == ('var', 'tau')) or (c[0] == 'un' and c[1] == 'not' and c[2][0] == 'bin' and c[2][1] == '<=' and c[2][3] == ('var', 'tau'))
+                             for c in path)
+            ctx.check((below or above) and strict, 'R-REC', F.file, F.name, 'affinity threshold comparator (%s)' % ('below' if below else 'above'),
+                      'a point affinity takes the delta arm only when it is strictly below tau (`d < tau`; an affinity equal to tau is kept, as in the C engine); found path %s'
+                      % [fmt(c)[:40] for c in path if 'tau' in fmt(c)], st[4].line)
+            ok = False
             if p is None:
                 ctx.violation('R-REC', F.file, F.name, 'affinity value', 'the affinity value is not built from max(three predecessors): %s' % fmt(value)[:200], st[4].line)
                 continue
@@ -1062,6 +1109,22 @@ def _affinity_region(ctx, R, amap):
     ctx.check(bool(vals) and has_below and bool(taus), 'R-REC', R.file, R.fname, 'region %s affinity arms' % R.name,
               'the region must compute max(0, delta + delta_factor*prev) below tau and max(0, d + prev) otherwise; found %s' % txt[:300], R.main.line)
     ctx.check(has_clip, 'R-REC', R.file, R.fname, 'region %s clip at zero' % R.name, 'affinity cells are clipped at 0', R.main.line)
+    # the tau test: delta arm iff d < tau (strict), in every region alike and as in the Python engine
+    cmps = []
+    for c in taus:
+        cc = c[1] if c[0] == 'cond' else c
+        neg = False
+        while cc[0] == 'un' and cc[1] == 'not':
+            cc, neg = cc[2], not neg
+        if cc[0] == 'bin' and cc[1] in ('<', '<=', '>', '>='):
+            op = cc[1]
+            if 'tau' in fmt(cc[2]) and 'tau' not in fmt(cc[3]):
+                op = {'<': '>', '<=': '>=', '>': '<', '>=': '<='}[op]       # tau OP d  ->  d OP' tau
+            if neg:
+                op = {'<': '>=', '<=': '>', '>': '<=', '>=': '<'}[op]
+            cmps.append(op)
+    ctx.check(bool(cmps) and all(op in ('<', '>=') for op in cmps), 'R-REC', R.file, R.fname, 'region %s threshold comparator' % R.name,
+              'the delta arm applies only to affinities strictly below tau (`d < tau`), an affinity equal to tau is kept; found comparators %s' % sorted(set(cmps)), R.main.line)
 
 
 # ------------------------------------------------------------------------------------------ duality
@@ -1536,6 +1599,52 @@ def rule_best_path_markers(ctx, m):
         ctx.check(okall, 'R-PSI', cf.file, fn, 'marked end run',
                   '%s skips cells marked -1 when recording the path, but chooses its next move from the three predecessors also when standing on a marked cell: it can leave the '
                   'marked run diagonally and miss the end cell of the best path' % fn, cf.line)
+
+
+def rule_pyx_path_assembly(ctx, m):
+    """The C back-trackers record the path from its end to its start into two index arrays (series-1 indices first) and return / store its
+    length.  Every Cython wrapper that receives such a pair must rebuild the path as [(i1[k], i2[k]) for k in range(path_length)] and reverse
+    it exactly once -- a shorter range drops a cell, swapped arrays transpose the path, a missing reverse returns it end-first."""
+    pyx = m.pyx('dtw_cc')
+    n = 0
+    for q, f in sorted(pyx.funcs.items()):
+        ccalls = [(st, c) for st, c in calls_in(f.body) if (dotted(c[1]) or '').startswith('dtaidistancec_dtw.dtw_') and
+                  ('best_path' in (dotted(c[1]) or '') or 'warping_path' in (dotted(c[1]) or ''))]
+        ccalls = [(st, c) for st, c in ccalls if sum(1 for a in c[2] if a[0] == 'var' and a[1] in f.locals_ptr) >= 2] if hasattr(f, 'locals_ptr') else ccalls
+        if not ccalls:
+            continue
+        st, c = ccalls[0]
+        # the two index arrays: the first two plain pointer variables among the arguments that are allocated in this function
+        allocs = [s_.name for s_ in walk_stmts(f.body) if s_.k == 'decl' and s_.init is not None and 'Malloc' in fmt(s_.init)]
+        idx = [a[1] for a in c[2] if a[0] == 'var' and a[1] in allocs]
+        if len(idx) < 2:
+            continue
+        a1, a2 = idx[0], idx[1]
+        # path length: the variable assigned from the call, or passed by address
+        plen = None
+        if st.k == 'assign' and st.target[0] == 'var' and 'best_path' in (dotted(c[1]) or ''):
+            plen = st.target[1]
+        for a in c[2]:
+            if a[0] == 'un' and a[1] == 'addr' and a[2][0] == 'var' and 'length' in a[2][1]:
+                plen = a[2][1]
+        n += 1
+        loops = [s_ for s_ in walk_stmts(f.body) if s_.k == 'for' and any(x[0] == 'call' and fmt(x[1]).endswith('.append') for t in s_.body for e in stmt_exprs(t) for x in walk_expr(e))]
+        ok = len(loops) == 1 and plen is not None
+        why = ''
+        if ok:
+            lp = loops[0]
+            ok_rng = lp.lo == ('num', 0) and lp.hi == ('var', plen) and not lp.d.get('inclusive') and lp.step in (None, ('num', 1))
+            app = [x for t in lp.body for e in stmt_exprs(t) for x in walk_expr(e) if x[0] == 'call' and fmt(x[1]).endswith('.append')]
+            want = ('tuple', (('idx', ('var', a1), ('var', lp.var)), ('idx', ('var', a2), ('var', lp.var))))
+            ok_app = len(app) == 1 and len(app[0][2]) == 1 and app[0][2][0] == want
+            lst = fmt(app[0][1])[:-len('.append')] if app else None
+            revs = [s_ for s_ in walk_stmts(f.body) if s_.k == 'expr' and s_.value[0] == 'call' and fmt(s_.value[1]) == '%s.reverse' % lst]
+            ok_rev = len(revs) == 1 and revs[0].line > lp.line
+            ok = ok_rng and ok_app and ok_rev
+            why = 'range ok=%s, element ok=%s, reversed once after the loop=%s' % (ok_rng, ok_app, ok_rev)
+        ctx.check(ok, 'R-PATH', pyx.path, q, 'path assembly',
+                  'the path must be rebuilt as [(%s[k], %s[k]) for k in range(%s)] and reversed exactly once (the C routine records it end-first); %s' % (a1, a2, plen, why), st.line)
+    ctx.check(n >= 5, 'R-PATH', pyx.path, '<module>', 'path-assembling wrappers', 'expected the five wrappers around C back-trackers, found %d' % n, 1)
 
 
 def rule_best_path_prob_moves(ctx, m):
